@@ -95,4 +95,189 @@ theorem parse_encodes {m : Mode} {e : Endian} {asz : Nat} {aarch64 : Bool} {p : 
   | argsSize n bn hn => simp [parse, uleb_read hn]
   | negateRaState ha => simp [parse, cfgOf, ha]
 
+theorem leBytes_leVal (bs : Bytes) : Ints.leBytes bs.length (Ints.leVal bs) = bs := by
+  induction bs with
+  | nil => rfl
+  | cons b tl ih =>
+    simp only [List.length_cons, Ints.leBytes, Ints.leVal]
+    have h1 : (b.toNat + 256 * Ints.leVal tl) % 256 = b.toNat := by
+      have := b.toNat_lt; omega
+    have h2 : (b.toNat + 256 * Ints.leVal tl) / 256 = Ints.leVal tl := by
+      have := b.toNat_lt; omega
+    rw [h1, h2, ih]
+    simp
+
+theorem toBytes_fromBytes (e : Endian) (bs : Bytes) : Ints.toBytes e bs.length (Ints.fromBytes e bs) = bs := by
+  cases e with
+  | little => exact leBytes_leVal bs
+  | big =>
+    simp only [Ints.toBytes, Ints.fromBytes]
+    have := leBytes_leVal bs.reverse
+    rw [List.length_reverse] at this
+    rw [this, List.reverse_reverse]
+
+theorem uleb_sound {bs : Bytes} {v : Nat} {rest : Bytes} (h : Leb.unsigned bs = .ok (v, rest)) :
+    ∃ pre, bs = pre ++ rest ∧ ULeb v pre := by
+  obtain ⟨pre, h1, h2, h3, h4, h5⟩ := Leb.unsigned_sound bs v rest h
+  exact ⟨pre, h1, h2, h3, h4.symm, h5⟩
+
+theorem reg_sound {bs : Bytes} {r : Reg} {rest : Bytes} (h : readReg bs = .ok (r, rest)) :
+    ∃ pre, bs = pre ++ rest ∧ RegEnc r pre := by
+  unfold readReg at h
+  obtain ⟨⟨v, r1⟩, h1, h2⟩ := bind_eq_ok h
+  simp only at h2
+  split at h2
+  · rename_i hv
+    simp only [Out.pure_eq, Out.ok.injEq, Prod.mk.injEq] at h2
+    obtain ⟨e1, e2⟩ := h2
+    subst e1; subst e2
+    obtain ⟨pre, hp, hu⟩ := uleb_sound h1
+    refine ⟨pre, hp, ?_⟩
+    unfold RegEnc
+    have : (UInt16.ofNat v).toNat = v := by
+      simp only [UInt16.toNat_ofNat']; omega
+    rw [this]; exact hu
+  · cases h2
+
+theorem fixed_sound {e : Endian} {n : Nat} {bs : Bytes} {v : Nat} {rest : Bytes}
+    (h : Ints.readFixed e n bs = .ok (v, rest)) : ∃ pre, bs = pre ++ rest ∧ Fixed e n v pre := by
+  obtain ⟨hn, hr, hv, hlt⟩ := Ints.readFixed_ok e n bs v rest h
+  refine ⟨bs.take n, by rw [hr, List.take_append_drop], ?_, hlt⟩
+  have hl : (bs.take n).length = n := by simp [List.length_take, Nat.min_eq_left hn]
+  rw [hv]
+  have := toBytes_fromBytes e (bs.take n)
+  rw [hl] at this
+  exact this.symm
+
+theorem block_sound {bs ex rest : Bytes} (h : readExpr bs = .ok (ex, rest)) :
+    ∃ pre, bs = pre ++ rest ∧ Block ex pre := by
+  unfold readExpr at h
+  obtain ⟨⟨len, r1⟩, h1, h2⟩ := bind_eq_ok h
+  simp only at h2
+  split at h2
+  · rename_i hl
+    simp only [Out.pure_eq, Out.ok.injEq, Prod.mk.injEq] at h2
+    obtain ⟨e1, e2⟩ := h2
+    subst e1; subst e2
+    obtain ⟨l, hp, hu⟩ := uleb_sound h1
+    refine ⟨l ++ r1.take len, by rw [hp, List.append_assoc, List.take_append_drop], l, ?_, rfl⟩
+    have : (r1.take len).length = len := by simp [List.length_take, Nat.min_eq_left hl]
+    rw [this]; exact hu
+  · cases h2
+
+theorem byte_eq {b : UInt8} {k : Nat} (h : b.toNat = k) : b = UInt8.ofNat k := by
+  rw [← h]; simp
+
+theorem address_sound {e : Endian} {n : Nat} {bs : Bytes} {v : Nat} {rest : Bytes}
+    (h : Ints.readAddress e n bs = .ok (v, rest)) :
+    ∃ pre, bs = pre ++ rest ∧ (n = 1 ∨ n = 2 ∨ n = 4 ∨ n = 8) ∧ Fixed e n v pre := by
+  unfold Ints.readAddress at h
+  split at h
+  · rename_i hn
+    obtain ⟨pre, hp, hf⟩ := fixed_sound h
+    exact ⟨pre, hp, hn, hf⟩
+  · cases h
+
+theorem exists_cons {x : UInt8} {tl pre rest : Bytes} {P : Bytes → Prop} (h1 : tl = pre ++ rest)
+    (h2 : P (x :: pre)) : ∃ p, x :: tl = p ++ rest ∧ P p :=
+  ⟨x :: pre, by simp [h1], h2⟩
+
+macro "sound_of " h:ident : tactic =>
+  `(tactic| first
+    | exact reg_sound $h
+    | exact uleb_sound $h
+    | exact fixed_sound $h
+    | exact block_sound $h)
+
+theorem parse_sound {m : Mode} {e : Endian} {asz : Nat} {aarch64 : Bool} {p : PtrParams} {pos : Nat}
+    {bs : Bytes} {i : Instr} {rest : Bytes}
+    (h : parse (cfgOf m e asz aarch64 p) pos bs = .ok (i, rest)) (hs : signedOperand i = false) :
+    ∃ pre, bs = pre ++ rest ∧ Encodes e asz aarch64 i pre := by
+  cases bs with
+  | nil => simp [parse] at h
+  | cons b tl =>
+    simp only [parse, cfgOf] at h
+    split at h
+    · -- DW_CFA_advance_loc
+      rename_i h1
+      cases h
+      refine ⟨[b], rfl, ?_⟩
+      have hb : b = UInt8.ofNat (0x40 + b.toNat % 64) := by
+        have : 0x40 + b.toNat % 64 = b.toNat := by omega
+        rw [this]; simp
+      rw [hb]
+      have := Encodes.advanceLoc (e := e) (asz := asz) (aarch64 := aarch64) (b.toNat % 64) (by omega)
+      simpa using this
+    · split at h
+      · -- DW_CFA_offset
+        rename_i h1 h2
+        obtain ⟨⟨o, r1⟩, h3, h4⟩ := bind_eq_ok h
+        cases h4
+        obtain ⟨pre, hp, hu⟩ := uleb_sound h3
+        subst hp
+        refine ⟨b :: pre, rfl, ?_⟩
+        have hr : (UInt16.ofNat (b.toNat % 64)).toNat = b.toNat % 64 := by
+          simp only [UInt16.toNat_ofNat']; omega
+        have hb : b = UInt8.ofNat (0x80 + (UInt16.ofNat (b.toNat % 64)).toNat) := by
+          rw [hr]
+          have : 0x80 + b.toNat % 64 = b.toNat := by omega
+          rw [this]; simp
+        have := Encodes.offset (e := e) (asz := asz) (aarch64 := aarch64) (UInt16.ofNat (b.toNat % 64)) o pre
+          (by rw [hr]; omega) hu
+        rw [← hb] at this
+        exact this
+      · split at h
+        · -- DW_CFA_restore
+          rename_i h1 h2 h3
+          cases h
+          refine ⟨[b], rfl, ?_⟩
+          have hr : (UInt16.ofNat (b.toNat % 64)).toNat = b.toNat % 64 := by
+            simp only [UInt16.toNat_ofNat']; omega
+          have hb : b = UInt8.ofNat (0xc0 + (UInt16.ofNat (b.toNat % 64)).toNat) := by
+            rw [hr]
+            have : 0xc0 + b.toNat % 64 = b.toNat := by
+              have := b.toNat_lt; omega
+            rw [this]; simp
+          have := Encodes.restore (e := e) (asz := asz) (aarch64 := aarch64) (UInt16.ofNat (b.toNat % 64))
+            (by rw [hr]; omega)
+          rw [← hb] at this
+          exact this
+        · split at h
+          all_goals first
+            | (cases h; done)
+            | (rename_i op heq
+               have hb := byte_eq heq
+               subst hb
+               first
+                | (cases h
+                   exact ⟨[_], rfl, by constructor⟩)
+                | (obtain ⟨⟨a, r1⟩, h1, h2⟩ := bind_eq_ok h
+                   first
+                    | (cases h2
+                       first
+                        | (simp [signedOperand] at hs; done)
+                        | (obtain ⟨pre, hp, hsz, he⟩ := address_sound h1
+                           subst hp
+                           exact ⟨_ :: pre, rfl, Encodes.setLoc _ _ hsz he⟩)
+                        | (obtain ⟨pre, hp, he⟩ : ∃ pre, tl = pre ++ r1 ∧ _ := by sound_of h1
+                           subst hp
+                           exact ⟨_ :: pre, rfl, by constructor <;> assumption⟩))
+                    | (obtain ⟨⟨a2, r2⟩, h3, h4⟩ := bind_eq_ok h2
+                       cases h4
+                       first
+                        | (simp [signedOperand] at hs; done)
+                        | (obtain ⟨pre1, hp1, he1⟩ : ∃ pre, tl = pre ++ r1 ∧ _ := by sound_of h1
+                           obtain ⟨pre2, hp2, he2⟩ : ∃ pre, r1 = pre ++ r2 ∧ _ := by sound_of h3
+                           refine exists_cons (pre := pre1 ++ pre2) (by rw [hp1, hp2, List.append_assoc]) ?_
+                           constructor <;> assumption)))
+                | skip)
+          -- DW_CFA_AARCH64_negate_ra_state: only for the AArch64 vendor
+          cases aarch64 with
+          | false => simp at h
+          | true =>
+            simp only [if_true, Out.ok.injEq, Prod.mk.injEq] at h
+            obtain ⟨e1, e2⟩ := h
+            subst e1; subst e2
+            exact ⟨[_], rfl, Encodes.negateRaState rfl⟩
+
 end Gimli.Spec.Cfi
